@@ -85,7 +85,7 @@ package node
 //@   note for a nil pointer the hash of the empty string
 
 //@ func InternalNode.UpdateHash
-//@   props C04
+//@   props C04 C02
 //@   requires n != nil
 //@   modifies n.Hash
 //@   trustframe
@@ -97,7 +97,7 @@ package node
 //@   note the hash input is checked argument by argument: exactly six parts, in this order - the internal-node prefix byte, the serialized label bit length, the label, and the hashes of the leaf, left and right pointers (empty hash for nil). That the SHA-512/256 of this input IS IHash(n) is the definition of IHash (assumed)
 
 //@ func LeafNode.UpdateHash
-//@   props C04
+//@   props C04 C02
 //@   requires n != nil
 //@   modifies n.Hash
 //@   trustframe
